@@ -651,9 +651,9 @@ def tie_decisions(ctx):
                 res = guarded(lambda: NR.detect_real_matrix_subspace_rank_one(sub, zero_eps=eps) if eps != d else NR.detect_real_matrix_subspace_rank_one(sub))
             ops.append(f'C20 cert rankone {fbits(ub)} {fbits(eps)}')
             impl.append(res if isinstance(res, str) else str(int(not res[0])))
-    # --- LU based certificates: min |diag U| vs zero_eps (no arithmetic on either side: exact, boundary included)
-    lu0 = scipy.linalg.lu
-
+    # --- Gram-matrix certificates: measured quantity vs zero_eps (no arithmetic on either side: exact, boundary included).
+    # The measured quantity is injected whichever routine the implementation asks (smallest eigenvalue of the Gram matrix
+    # since the repair 561406a, min |diag U| of scipy.linalg.lu before / in is_vector_linear_independent).
     def fake_lu(m):
         def f(a, *args, **kw):
             n = a.shape[0]
@@ -661,17 +661,29 @@ def tie_decisions(ctx):
             sign = -1 if rng.integers(0, 2) else 1
             return None, None, sign * u
         return f
+    ev0 = np.linalg.eigvalsh
+
+    def fake_eigvalsh(m, skip):
+        calls = []
+
+        def f(a, *args, **kw):
+            calls.append(1)
+            if len(calls) <= skip:
+                return ev0(a, *args, **kw)      # the independence assert of has_rank_hierarchical_method
+            n = a.shape[0]
+            return np.concatenate([[m], 3 + np.arange(n - 1)])
+        return f
     q2 = np.linalg.qr(rng.normal(size=(4, 2)))[0].T.reshape(2, 2, 2)
     q3 = np.linalg.qr(rng.normal(size=(8, 2)))[0].T.reshape(2, 2, 2, 2)
-    for which, fn, call in (('hierarchy', H.has_rank_hierarchical_method, lambda e: H.has_rank_hierarchical_method(q2, 2, **e)),
-                            ('abc', H.is_ABC_completely_entangled_subspace, lambda e: H.is_ABC_completely_entangled_subspace(list(q3), **e)),
-                            ('lu', M.is_vector_linear_independent, lambda e: M.is_vector_linear_independent(q2, 'real', **e))):
+    for which, fn, call, skip in (('hierarchy', H.has_rank_hierarchical_method, lambda e: H.has_rank_hierarchical_method(q2, 2, **e), 1),
+                                  ('abc', H.is_ABC_completely_entangled_subspace, lambda e: H.is_ABC_completely_entangled_subspace(list(q3), **e), 0),
+                                  ('lu', M.is_vector_linear_independent, lambda e: M.is_vector_linear_independent(q2, 'real', **e), 0)):
         d = inspect.signature(fn).parameters['zero_eps'].default
         if which != 'lu':
             ops.append(f'C20 certdefault {which}'); impl.append(f'{Fraction(repr(d)).numerator}/{Fraction(repr(d)).denominator}')
         for eps in [d, 1e-3, 0.0, 1e-12]:
             for m in [eps, eps * (1 + 1e-9), eps * (1 - 1e-9), np.nextafter(eps, 1), 0.0, 1e-16, 1.0, 2.5, float(rng.uniform(0, 2 * eps + 1e-8))]:
-                with patched((scipy.linalg, 'lu', fake_lu(m))):
+                with patched((scipy.linalg, 'lu', fake_lu(m)), (np.linalg, 'eigvalsh', fake_eigvalsh(m, skip))):
                     res = guarded(lambda: call({} if eps == d else dict(zero_eps=eps)))
                 ops.append(f'C20 cert {which} {fbits(m)} {fbits(eps)}')
                 impl.append(res if isinstance(res, str) else str(int(bool(res))))
@@ -829,15 +841,18 @@ def _planted_bipartite(rng, dA, dB, N, low_rank, cplx):
 
 
 def _abc_gram(np_list, k):
-    """the matrix handed to scipy.linalg.lu by is_ABC_completely_entangled_subspace (captured in-process)"""
+    """the Gram matrix on which is_ABC_completely_entangled_subspace decides (captured in-process from the eigen-solver / LU call)"""
     import scipy.linalg
     from numqi.matrix_space import is_ABC_completely_entangled_subspace
     cap = []
-    lu0 = scipy.linalg.lu
+    lu0, ev0 = scipy.linalg.lu, np.linalg.eigvalsh
 
-    def rec(a, *args, **kw):
+    def rec_lu(a, *args, **kw):
         cap.append(np.array(a)); return lu0(a, *args, **kw)
-    with patched((scipy.linalg, 'lu', rec)):
+
+    def rec_ev(a, *args, **kw):
+        cap.append(np.array(a)); return ev0(a, *args, **kw)
+    with patched((scipy.linalg, 'lu', rec_lu), (np.linalg, 'eigvalsh', rec_ev)):
         try:
             is_ABC_completely_entangled_subspace(np_list, hierarchy_k=k)
         except Exception:
@@ -870,7 +885,7 @@ def probe_planted(ctx):
                     replay['gram_singular_values_min_max'] = [float(sv[-1]), float(sv[0])]
                     ctx.fail('hierarchy-lu-not-rank-revealing' if lu_only else 'hierarchy-unsound',
                              f'has_rank_hierarchical_method(rank={rank}, k={k}) certifies a {dA}x{dB} subspace (dim {N}, {"complex" if cplx else "real"}) containing an element of rank {rank - 1}'
-                             + (f'; the Gram matrix is singular (sigma_min/sigma_max={sv[-1] / sv[0]:.1e}) but min|diag U| of its LU factor exceeds zero_eps' if lu_only else '; the Gram matrix of the linear system is not singular'), replay)
+                             + (f'; the Gram matrix is singular (sigma_min/sigma_max={sv[-1] / sv[0]:.1e}) but the decision on it is positive' if lu_only else '; the Gram matrix of the linear system is not singular'), replay)
                 else:
                     ctx.probe_ok(('hier', dA, dB, N, rank, k, cplx))
     # non-vacuity: the certificate is issued on the literature examples
@@ -917,7 +932,7 @@ def probe_planted(ctx):
                     lu_only = sv is not None and sv[-1] <= 1e-9 * sv[0]
                     ctx.fail('abc-lu-not-rank-revealing' if lu_only else 'abc-unsound',
                              f'is_ABC_completely_entangled_subspace(k={k}) certifies a {dA}x{dB}x{dC} subspace (dim {N}) containing a product vector'
-                             + ('; the Gram matrix is singular but min|diag U| of its LU factor exceeds zero_eps' if lu_only else ''), replay)
+                             + ('; the Gram matrix is singular but the decision on it is positive' if lu_only else ''), replay)
                 else:
                     ctx.probe_ok(('abc', dA, dB, dC, N, k, cplx))
 
